@@ -287,6 +287,43 @@ def pairing(ctx, res):
                    f"remove=True (it registers a second handler)")
         res.oblige(a in addset, f"sync_trait:unpaired-remove:{a[0]}",
                    mod.loc(n), f"removal of `{a}` has no matching add")
+    # hooks are per trait name, links are per (partner, alias): a hook is
+    # installed with the first link of a name and taken away with the last
+    # one - a registration and its removal sit under the same "the link
+    # table of this name is empty" test
+    par = {}
+    for p_ in ast.walk(fn):
+        for c in ast.iter_child_nodes(p_):
+            par[id(c)] = p_
+
+    def empty_guards(node):
+        out = set()
+        child, p_ = node, par.get(id(node))
+        while p_ is not None and p_ is not fn:
+            if isinstance(p_, ast.If) and any(child is s_ for s_ in p_.body):
+                t = p_.test
+                if isinstance(t, ast.Compare) and len(t.ops) == 1 \
+                        and isinstance(t.ops[0], ast.Eq) \
+                        and norm(t.comparators[0]) == "0" \
+                        and norm(t.left).startswith("len("):
+                    out.add(norm(t.left)[4:-1])
+                elif isinstance(t, ast.UnaryOp) and isinstance(t.op, ast.Not) \
+                        and isinstance(t.operand, ast.Name):
+                    out.add(t.operand.id)
+            child, p_ = p_, par.get(id(p_))
+        return out
+    add_guard = {a: empty_guards(n) for a, rm, n in adds}
+    for a, rm, n in removes:
+        if a not in add_guard:
+            continue
+        res.oblige(bool(add_guard[a]) == bool(empty_guards(n)),
+                   f"sync_trait:last-link-only:{a[0]}", mod.loc(n),
+                   f"`_on_trait_change{a}` is installed "
+                   f"{'with the first link of the name (table empty)' if add_guard[a] else 'for every link'} "
+                   f"but removed "
+                   f"{'only with the last one' if empty_guards(n) else 'whenever any link is removed'}: "
+                   f"unlinking one of several partners takes the hook away "
+                   f"from the partners that remain")
     # bookkeeping keys agree
     ldefs = {}
     for n in ast.walk(fn):
